@@ -410,7 +410,7 @@ func genC13(r *prng) *plan {
 	p.Cfg["hdrsrc"] = int64(r.intn(3)) // 0 preloaded in the history store, 1 served by H, 2 served by B (lying allowed)
 	n := 3 + r.intn(7)
 	for i := 0; i < n; i++ {
-		p.Ops = append(p.Ops, opSpec{K: "offer", N: []int64{int64(r.intn(3)), int64(r.intn(16)), int64(r.intn(3)), int64(r.u64() >> 1)}})
+		p.Ops = append(p.Ops, opSpec{K: "offer", N: []int64{int64(r.intn(3)), int64(r.intn(18)), int64(r.intn(3)), int64(r.u64() >> 1)}})
 	}
 	return p
 }
@@ -670,6 +670,21 @@ func c13Item(rs *prng, w1, w2 *c13world, kind int64, mut int) (key, val []byte, 
 		desc = "code-altered"
 		if len(code) > 0 {
 			code[rs.intn(len(code))] ^= 0x01
+		}
+	case 16:
+		// a self-consistent forgery: other code, and the key names that code's hash; only the proven
+		// account's code hash gives it away
+		desc = "forged-code-with-matching-key-hash"
+		code = rs.bytes(1 + rs.intn(300))
+		codeHash = crypto.Keccak256(code)
+	case 17:
+		// same for trie nodes: a genuine node of another path offered with a key naming its own hash
+		desc = "other-node-with-matching-key-hash"
+		other := w1.accts[rs.intn(len(w1.accts))]
+		on, _ := w1.accounts.nodesOnPath(other.addrHash)
+		if len(nodes) > 0 && len(on) > 0 {
+			nodes[len(nodes)-1] = on[len(on)-1]
+			nodeHash = crypto.Keccak256(on[len(on)-1])
 		}
 	}
 	nib, err := state.FromUnpackedNibbles(path)
